@@ -2,7 +2,9 @@ package props
 
 import (
 	"fmt"
+	"sync"
 	"testing"
+	"time"
 
 	"github.com/go-ldap/ldap/v3"
 	"github.com/jimlambrt/gldap"
@@ -297,6 +299,110 @@ func TestC14Behera(t *testing.T) {
 			}
 			if hasErr && code != ec {
 				return lab.Failf("behera-ctor-value", "error %d, want %d", code, ec)
+			}
+			return nil
+		},
+	}.Run(t)
+}
+
+// ---- request direction, several connections at the same time ---------------------
+
+type c14ConcCase struct {
+	Conns [][]CtlSpec `json:"conns"` // per connection: the controls of its requests (one control list per request = 1..3 controls)
+	Reqs  int         `json:"reqs"`
+}
+
+// TestC14Concurrent: the same round trip, but 2..8 connections decode their
+// (different) controls at the same time - each handler must still see exactly
+// what ITS client sent.
+func TestC14Concurrent(t *testing.T) {
+	lab.Prop[c14ConcCase]{
+		ID: "C14", Part: "concurrent",
+		Rule: "rapid: 2..8 connections send 5..40 searches each, every request carrying 1..3 controls of that connection's own generated set (paging with distinct sizes/cookies, Behera values, generic values), all connections at once; oracle as part 'request', per connection; non-trivial = >= 2 connections whose controls carry values; distinct by hash",
+		Gen: func(t *rapid.T) c14ConcCase {
+			var c c14ConcCase
+			n := rapid.IntRange(2, 8).Draw(t, "nconns")
+			valued := rapid.Custom(func(t *rapid.T) CtlSpec {
+				for {
+					cs := genCtl().Draw(t, "ctl")
+					if cs.Kind == "paging" || cs.Kind == "behera_grace" || cs.Kind == "behera_expire" || cs.Kind == "behera_error" || cs.Kind == "generic" || cs.Kind == "vchu_warn" {
+						return cs
+					}
+				}
+			})
+			for i := 0; i < n; i++ {
+				c.Conns = append(c.Conns, rapid.SliceOfN(valued, 1, 3).Draw(t, "ctls"))
+			}
+			c.Reqs = rapid.IntRange(5, 40).Draw(t, "reqs")
+			return c
+		},
+		Exec: func(c c14ConcCase, st *lab.Stats) *lab.Fail {
+			var mu sync.Mutex
+			seen := map[int64][]ObsCtl{}
+			mux, _ := gldap.NewMux()
+			_ = mux.Search(func(w *gldap.ResponseWriter, r *gldap.Request) {
+				o := observe(r, "search")
+				mu.Lock()
+				seen[o.MsgID] = o.Ctls
+				mu.Unlock()
+				_ = w.Write(r.NewSearchDoneResponse(gldap.WithResponseCode(0)))
+			})
+			srv, err := lab.StartServer(mux, lab.ServerOpts{})
+			if err != nil {
+				st.Inconclusive(err.Error())
+				return nil
+			}
+			defer func() { _ = srv.Stop(15 * time.Second) }()
+			filter, _ := compileFilter("(objectClass=*)")
+			fails := make([]*lab.Fail, len(c.Conns))
+			var wg sync.WaitGroup
+			start := make(chan struct{})
+			for ci, ctls := range c.Conns {
+				wg.Add(1)
+				go func(ci int, ctls []CtlSpec) {
+					defer wg.Done()
+					cl, err := lab.Dial(srv.Addr)
+					if err != nil {
+						return
+					}
+					defer cl.Abort()
+					<-start
+					for k := 0; k < c.Reqs; k++ {
+						id := int64(ci)*tagStride + int64(k) + 1
+						q := ReqSpec{Req: wire.Req{Kind: "search", MsgID: id, DN: []byte("dc=x"), Scope: 2, Filter: filter}, Ctls: ctls}
+						if err := cl.Send(q.Bytes()); err != nil {
+							fails[ci] = lab.Failf("ctl-rejected", "connection %d request %d: send: %v", ci, k, err)
+							return
+						}
+						m, err := cl.Next(10 * time.Second)
+						if err != nil || m.ID != id {
+							fails[ci] = lab.Failf("ctl-rejected", "connection %d: request %d with valid controls %v was not answered (%v) while %d connections were decoding controls at the same time", ci, k, kindsOf(ctls), err, len(c.Conns))
+							return
+						}
+						mu.Lock()
+						got := seen[id]
+						mu.Unlock()
+						if len(got) != len(ctls) {
+							fails[ci] = lab.Failf("ctl-count", "connection %d request %d: handler sees %d controls, %d were sent", ci, k, len(got), len(ctls))
+							return
+						}
+						for i := range ctls {
+							if err := checkCtl(ctls[i], got[i]); err != nil {
+								fails[ci] = lab.Failf("ctl-roundtrip-concurrent:"+ctls[i].Kind, "connection %d request %d control %d: %v (while %d connections were decoding controls at the same time)", ci, k, i, err, len(c.Conns))
+								return
+							}
+						}
+					}
+				}(ci, ctls)
+			}
+			close(start)
+			wg.Wait()
+			st.Case(len(c.Conns) >= 2, lab.JSONKey(c), fmt.Sprintf("conns=%d", len(c.Conns)))
+			st.Sample(c)
+			for _, f := range fails {
+				if f != nil {
+					return f
+				}
 			}
 			return nil
 		},
